@@ -318,9 +318,56 @@ def run_rewrite(case, agg):
         agg.ok(key, "ok:rewrite", sample=case if case["l1"] == 5000 and case["l2"] == 16 and case["s1"] == "enc" and case["s2"] == "enc" else None)
 
 
+# -- one Encryptor object reused -------------------------------------------------------------------------------
+
+OBJ_OPS = ["enc-direct", "gi-direct", "gi-a256kw"]
+
+
+def reuse_cases(tier):
+    return [{"ops": list(p)} for n in (2, 3) for p in itertools.product(OBJ_OPS, repeat=n)]
+
+
+def run_reuse(case, agg):
+    from suit_generator.suit_encrypt_script_base import SuitDigestAlgorithms, SuitKWAlgorithms
+    e = _encryptor()
+    es, ks = escripts()
+    label = f"one Encryptor object, operations {case['ops']}"
+    with fresh_dir("c06o") as d:
+        for step, op in enumerate(case["ops"]):
+            od = os.path.join(d, f"o{step}")
+            os.makedirs(od)
+            kid = 100 + step
+            try:
+                if op == "enc-direct":
+                    pt = plaintext(50 + step, step)
+                    ep, tag, info, dg, n = e.encrypt_and_generate(pt, "aes", kid, vkeys.key_dir(), SuitDigestAlgorithms("sha-256"), SuitKWAlgorithms("direct"), ks)
+                    open(os.path.join(od, "plain_text_digest.bin"), "wb").write(dg)
+                    open(os.path.join(od, "plain_text_size.txt"), "w").write(str(n))
+                    args = (vkeys.aes_key("aes"), pt, kid, "sha-256")
+                    kw, cek = "direct", None
+                else:
+                    blob = bytes((i * 5 + step) % 256 for i in range(60))
+                    kw = "direct" if op == "gi-direct" else "aes-kw-256"
+                    cek = b"C" * 40
+                    ep, tag, info = e.generate(blob, cek, kid, SuitKWAlgorithms(kw))
+                    args = (None, None, kid, None)
+                open(os.path.join(od, "suit_encryption_info.bin"), "wb").write(info)
+                open(os.path.join(od, "encrypted_content.bin"), "wb").write(tag + ep)
+            except Exception as ex:
+                agg.viol(f"C06:object-reuse/failed/{type(ex).__name__}", f"{label}: step {step} ({op}): {type(ex).__name__}: {str(ex)[:200]}")
+                return
+            r = check_artifacts(od, *args, kw=kw, cek=cek)
+            problems = r[0] if isinstance(r, tuple) else r
+            if problems:
+                agg.viol(f"C06:object-reuse/{problems[0][0]}", f"{label}: step {step} ({op}): " + "; ".join(p[1] for p in problems[:2]))
+                return
+    agg.ok(h8("c06o", case), "ok:object-reuse", sample=case if case["ops"] == ["gi-a256kw", "enc-direct"] else None)
+
+
 def plan(tier):
     return [
         CaseStage("encrypt-and-generate", lambda: enc_cases(tier), run_enc, disjoint=True, rule="length x key id x digest alg x entry path"),
         CaseStage("generate-info", lambda: gi_cases(tier), run_gi, disjoint=True, rule="blob length x key id x kw alg x entry path"),
+        CaseStage("encryptor-object-reused", lambda: reuse_cases(tier), run_reuse, rule="all sequences of 2 and 3 operations {encrypt direct, generate direct, generate aes-kw-256} on ONE Encryptor object"),
         CaseStage("output-directory-reused", lambda: rewrite_cases(tier), run_rewrite, rule="ordered pairs of runs (sub-command x length) into one directory"),
     ]
